@@ -41,8 +41,15 @@ def _plan(draw):
     names = NAMES[:k]
     cols = []
     for nm in names:
-        kind = draw(st.sampled_from(["i", "i", "f", "b", "s"]))
-        if kind == "i":
+        kind = draw(st.sampled_from(["i", "i", "f", "b", "s"] + (["d", "t", "t"] if fmt in ("csv", "parquet") else [])
+                                    + (["td"] if fmt == "parquet" else [])))
+        if kind in ("d", "t", "td"):
+            # temporal columns (the formats that have them): a dtype map may ask for another unit of the same family
+            pool = {"d": ["2020-12-31", "1969-12-31", "2024-02-29"],
+                    "t": ["2020-12-31T12:34:56", "1969-12-31T23:59:59", "2024-02-29T00:00:01"],
+                    "td": [0, 1, 86399, -5, 90061]}[kind]
+            vals = [draw(st.sampled_from(pool)) for _ in range(n)]
+        elif kind == "i":
             vals = [draw(st.sampled_from([0, 1, 2, -7, 2**40])) for _ in range(n)]
         elif kind == "f":
             vals = [draw(st.sampled_from([0.5, -1.25, 2.5, 1e10])) for _ in range(n)]
@@ -60,15 +67,30 @@ def _plan(draw):
         m = {}
         for nm in sel:
             kind = next(c["kind"] for c in cols if c["name"] == nm)
-            if draw(st.integers(0, 2)) == 0:
+            if draw(st.integers(0, 2)) == 0 or (fmt == "lod_csv" and draw(st.booleans())):
                 if fmt in ("lod_json", "lod_csv"):
-                    m[nm] = "str" if kind != "i" or draw(st.booleans()) else "float"
+                    m[nm] = "str" if kind not in ("i", "f") or draw(st.integers(0, 2)) == 0 else "float"
                 else:
                     choices = {"i": ["float", "str", "object"], "f": ["object", "float"], "b": ["object"],
-                               "s": ["object", "str"]}[kind]
+                               "s": ["object", "str"], "d": ["datetime64[us]", "datetime64[s]", "datetime64[D]", "object"],
+                               "t": ["datetime64[D]", "datetime64[s]", "datetime64[h]", "datetime64[us]", "object"],
+                               "td": ["timedelta64[m]", "timedelta64[s]", "timedelta64[D]", "object"]}[kind]
                     m[nm] = draw(st.sampled_from(choices))
         if m:
             kw["dtypes"] = m
+    if fmt != "npz" and draw(st.integers(0, 4)) == 0:
+        # the combination both options at once, a dropped column lying left of a typed one (positions shift)
+        d = draw(st.integers(0, k - 2))
+        t = draw(st.integers(d + 1, k - 1))
+        keep = [nm for j, nm in enumerate(names) if j != d and (j == t or draw(st.integers(0, 3)))]
+        kw["columns"] = list(draw(st.permutations(keep)))
+        kind = cols[t]["kind"]
+        if fmt in ("lod_json", "lod_csv"):
+            cast = "float" if kind in ("i", "f") else "str"
+        else:
+            cast = {"i": "float", "f": "object", "b": "object", "s": "object", "d": "datetime64[s]", "t": "datetime64[D]",
+                    "td": "timedelta64[m]"}[kind]
+        kw["dtypes"] = {names[t]: cast}
     if fmt in ("csv", "lod_csv"):
         if draw(st.integers(0, 2)) == 0:
             kw["sep"] = draw(st.sampled_from([";", "\t", "|"]))
@@ -103,7 +125,9 @@ def nontrivial(plan):
     return bool(set(kw) - {"columns", "nested"}) or ("nested" in kw and "columns" in kw)     # raw_nan counts as an option
 
 
-_DT = {"float": float, "str": str, "object": object}
+_DT = {"float": float, "str": str, "object": object, "datetime64[us]": "datetime64[us]", "datetime64[s]": "datetime64[s]",
+       "datetime64[D]": "datetime64[D]", "datetime64[h]": "datetime64[h]", "timedelta64[m]": "timedelta64[m]",
+       "timedelta64[s]": "timedelta64[s]", "timedelta64[D]": "timedelta64[D]"}
 
 
 def _write(plan, ctx):
@@ -203,6 +227,10 @@ def check(plan, ctx):
             raise RuntimeError(f"alias {name} has keywords {sorted(have)}; the plan covers {sorted(kws)}: extend the check")
     fmt, kw = plan["fmt"], plan["kw"]
     ctx.cls("fmt_" + fmt, *("kw_" + k for k in kw))
+    order = [c["name"] for c in plan["frame"]["cols"]]
+    if "columns" in kw and any(order.index(k) > min([order.index(x) for x in order if x not in kw["columns"]] or [99])
+                               for k in kw.get("dtypes", {})):
+        ctx.cls("typed_column_right_of_a_dropped_one", f"typed_right_of_dropped_{fmt}")
     if kw.get("raw_nan"):
         return _check_raw_nan(plan, ctx)
     path = _write(plan, ctx)
@@ -227,6 +255,11 @@ def check(plan, ctx):
                             kwargs={k: repr(v) for k, v in kwargs.items()}, alias=_describe(a[1]), method=_describe(m[1]))
         ctx.cls("alias_compared")
     if m[0] == "exc":
+        # a restricted / typed read may only fail where reading everything and then selecting and casting fails too
+        ref = _try(_reference_only, plan, method, path)
+        if ref[0] == "ok":
+            raise Violation("restricted / typed read raises although read-everything-then-select-and-cast succeeds",
+                            kwargs={k: repr(v) for k, v in kwargs.items()}, exc=m[1:])
         ctx.reject(f"reader raises for these arguments: {fmt} {m[1]}")
         return
     got = m[1]
@@ -268,6 +301,26 @@ def check(plan, ctx):
         if build.dtype_tag(got[cn]) != build.dtype_tag(ref):
             raise Violation("dtype differs from read-everything-then-cast", column=cn, got=build.dtype_tag(got[cn]),
                             want=build.dtype_tag(ref))
+
+
+def _reference_only(plan, method, path):
+    """read everything, select, cast - raising whatever those steps raise"""
+    fmt, kw = plan["fmt"], plan["kw"]
+    full = method(path, **_kwargs(plan, restrict=False))
+    want_names = kw.get("columns")
+    casts = kw.get("dtypes", {})
+    if fmt.startswith("lod_"):
+        types = {"float": float, "str": str}
+        out = []
+        for it in full:
+            d = {k: v for k, v in it.items() if want_names is None or k in want_names}
+            for k, t in casts.items():
+                if k in d:
+                    d[k] = types[t](d[k])
+            out.append(d)
+        return out
+    return {cn: (di.Vector(full[cn], _DT[casts[cn]]) if cn in casts else full[cn])
+            for cn in dict.keys(full) if want_names is None or cn in want_names}
 
 
 def _check_raw_nan(plan, ctx):
